@@ -222,3 +222,16 @@ def cex_cert(obl, results, env):
         return _first_fail(validate.cert_corpus(env))
     except driver.Undecided:
         return None
+
+
+def cex_names(obl, results, env):
+    """C14: the network-name matrix, then the certificate corpus, on the real crate"""
+    import validate
+    for f in (validate.network_names, validate.cert_corpus):
+        try:
+            got = _first_fail(f(env))
+        except driver.Undecided:
+            got = None
+        if got:
+            return got
+    return None
